@@ -1,7 +1,7 @@
 """C05 — Packet wire codec is exact, total and strict (structural clauses)."""
 import re
 
-from analysis import (Prov, Guards, fmt, fmt_short, walk, roots, short, comparison, find_calls, callee_matches,
+from analysis import (flow_key, Prov, Guards, fmt, fmt_short, walk, roots, short, comparison, find_calls, callee_matches,
                       must_pass, const_int_of, writes_into, _lin_add)
 from aff import Aff, Fact
 from facts import AnchorError, strip_closure
@@ -205,7 +205,7 @@ def r3(ctx):
     ws = [(bi, src[0]) for bi, m, src, t in writes_into(he, hp, buf) if m == "extend_from_slice"]
     order = sorted(ws, key=lambda x: [i for i in range(len(he.blocks)) if True].index(x[0]) if False else 0)
     # program order = dominance order: each write must-pass the previous ones
-    seq = sorted(ws, key=lambda x: sum(1 for y in ws if must_pass(he, [x[0]], via_blocks=[y[0]]) and y[0] != x[0]))
+    seq = sorted(ws, key=flow_key(he, ws))
     layout = []
     off = 0
     meaning = []
